@@ -158,6 +158,11 @@ impl Submissions {
             if let Ok(()) = submitted {
                 return Ok(());
             }
+            // If the Ring is (being) dropped the submission will never be
+            // accepted, and there is nothing left to wake.
+            if self.shared.ring_dropped.load(Ordering::Acquire) {
+                return Ok(());
+            }
         }
     }
 
